@@ -97,7 +97,8 @@ Definition policy_bounded_ok (x : sx) : sx :=
     of k idle Syncs (application idle, no transaction open, database mtime
     rule constant over the phase).
     input  [Min; Trunc; b; MaxSyncWALBytes; pending application transactions at the start; counts;
-            history tag (ignored); reader pinned during the phase (0/1)]
+            history tag (ignored); reader pinned during the phase (0/1);
+            phase follows a transaction that spilled uncommitted frames into the WAL (0/1, ignored: label only)]
     output 1 holds: total new files <= cost + 1 (cost = pending transactions, or 1 for all of
              them when MaxSyncWALBytes <= 0) and no file after the first idle Sync that created none
            | 4 violated while an application read transaction was pinned open (no checkpoint can
